@@ -1325,10 +1325,12 @@ namespace DendroModel.C04.Aux
 open DendroModel DendroModel.C04
 
 /-- the two current structures after a history: only the edits matter -/
-def curAfter : List Ev → T × T → T × T
+def curAfter : List Ev → (Option Bool × T) × (Option Bool × T) → (Option Bool × T) × (Option Bool × T)
   | [], c => c
-  | .editA t :: evs, c => curAfter evs (t, c.2)
-  | .editB t :: evs, c => curAfter evs (c.1, t)
+  | .editA t :: evs, c => curAfter evs ((c.1.1, t), c.2)
+  | .editB t :: evs, c => curAfter evs (c.1, (c.2.1, t))
+  | .rootA r t :: evs, c => curAfter evs ((r, t), c.2)
+  | .rootB r t :: evs, c => curAfter evs (c.1, (r, t))
   | .fpfn _ :: evs, c => curAfter evs c
   | .missing _ :: evs, c => curAfter evs c
   | .weighted :: evs, c => curAfter evs c
@@ -1339,11 +1341,14 @@ theorem prepare_fields (u : Bool) (o : TreeObj) :
   cases u <;> cases o.enc <;> simp
 
 theorem step_fields (st : TreeObj × TreeObj) (e : Ev) :
-    (step st e).1.ns = st.1.ns ∧ (step st e).2.ns = st.2.ns ∧ (step st e).1.rooted = st.1.rooted ∧ (step st e).2.rooted = st.2.rooted
-    ∧ ((step st e).1.cur, (step st e).2.cur) = curAfter [e] (st.1.cur, st.2.cur) := by
+    (step st e).1.ns = st.1.ns ∧ (step st e).2.ns = st.2.ns
+    ∧ (((step st e).1.rooted, (step st e).1.cur), ((step st e).2.rooted, (step st e).2.cur))
+        = curAfter [e] ((st.1.rooted, st.1.cur), (st.2.rooted, st.2.cur)) := by
   cases e with
   | editA t => simp [step, TreeObj.edit, curAfter]
   | editB t => simp [step, TreeObj.edit, curAfter]
+  | rootA r t => simp [step, TreeObj.reroot, curAfter]
+  | rootB r t => simp [step, TreeObj.reroot, curAfter]
   | fpfn u =>
     simp only [step, fpfnCall, curAfter]
     split <;> simp [prepare_fields]
@@ -1354,19 +1359,21 @@ theorem step_fields (st : TreeObj × TreeObj) (e : Ev) :
     simp only [step, weightedCall, curAfter]
     split <;> simp [TreeObj.encode]
 
-theorem curAfter_cons (e : Ev) (evs : List Ev) (c : T × T) : curAfter (e :: evs) c = curAfter evs (curAfter [e] c) := by
+theorem curAfter_cons (e : Ev) (evs : List Ev) (c : (Option Bool × T) × (Option Bool × T)) :
+    curAfter (e :: evs) c = curAfter evs (curAfter [e] c) := by
   cases e <;> simp [curAfter]
 
 theorem run_fields : ∀ (evs : List Ev) (st : TreeObj × TreeObj),
-    (run evs st).1.ns = st.1.ns ∧ (run evs st).2.ns = st.2.ns ∧ (run evs st).1.rooted = st.1.rooted ∧ (run evs st).2.rooted = st.2.rooted
-    ∧ ((run evs st).1.cur, (run evs st).2.cur) = curAfter evs (st.1.cur, st.2.cur)
+    (run evs st).1.ns = st.1.ns ∧ (run evs st).2.ns = st.2.ns
+    ∧ (((run evs st).1.rooted, (run evs st).1.cur), ((run evs st).2.rooted, (run evs st).2.cur))
+        = curAfter evs ((st.1.rooted, st.1.cur), (st.2.rooted, st.2.cur))
   | [], st => by simp [run, curAfter]
   | e :: evs, st => by
-    obtain ⟨a1, a2, a3, a4, a5⟩ := step_fields st e
-    obtain ⟨b1, b2, b3, b4, b5⟩ := run_fields evs (step st e)
+    obtain ⟨a1, a2, a5⟩ := step_fields st e
+    obtain ⟨b1, b2, b5⟩ := run_fields evs (step st e)
     have : run (e :: evs) st = run evs (step st e) := rfl
     rw [this, curAfter_cons, ← a5]
-    exact ⟨b1.trans a1, b2.trans a2, b3.trans a3, b4.trans a4, b5⟩
+    exact ⟨b1.trans a1, b2.trans a2, b5⟩
 
 end DendroModel.C04.Aux
 
@@ -1387,28 +1394,31 @@ theorem default_call_ignores_stored_encoding (a b : TreeObj) :
   · unfold missingCall; split <;> simp [TreeObj.prepare, TreeObj.encode, TreeObj.splits]
   · unfold weightedCall; split <;> simp
 
-/-- **for all interleavings of structural edits with distance calls**: after ANY history of edits (of either tree) and calls
-    (of any of the functions, with either value of `is_bipartitions_updated`), a call with default arguments on two trees over
-    one namespace returns exactly the value of the two current structures (`curAfter`: the last edit of each tree, or its
-    initial structure) — the stored encodings, however stale, are never used -/
+/-- **for all interleavings of structural edits and rooting-state changes with distance calls**: after ANY history of edits (of
+    either tree), changes of a tree's rooting flag (with whatever re-drawing comes with them) and calls (of any of the functions,
+    with either value of `is_bipartitions_updated`), a call with default arguments on two trees over one namespace returns exactly
+    the value of the two CURRENT (rooting flag, structure) pairs (`curAfter`: the last edit / rooting change of each tree, or its
+    initial state) — the stored encodings, however stale and under whatever earlier flag they were made, are never used -/
 theorem history_default_call_is_fresh (evs : List Ev) (a b : TreeObj) (hns : a.ns = b.ns) :
+    let c := curAfter evs ((a.rooted, a.cur), (b.rooted, b.cur))
     (fpfnCall false (run evs (a, b)).1 (run evs (a, b)).2).1
-        = some (fpfn ((edgeRecs a.rooted (curAfter evs (a.cur, b.cur)).1).map (·.split))
-                     ((edgeRecs b.rooted (curAfter evs (a.cur, b.cur)).2).map (·.split)))
+        = some (fpfn ((edgeRecs c.1.1 c.1.2).map (·.split)) ((edgeRecs c.2.1 c.2.2).map (·.split)))
     ∧ (missingCall false (run evs (a, b)).1 (run evs (a, b)).2).1
-        = some (missing ((edgeRecs a.rooted (curAfter evs (a.cur, b.cur)).1).map (·.split))
-                        ((edgeRecs b.rooted (curAfter evs (a.cur, b.cur)).2).map (·.split)))
+        = some (missing ((edgeRecs c.1.1 c.1.2).map (·.split)) ((edgeRecs c.2.1 c.2.2).map (·.split)))
     ∧ (weightedCall (run evs (a, b)).1 (run evs (a, b)).2).1
-        = some (wrf (edgeMap (edgeRecs a.rooted (curAfter evs (a.cur, b.cur)).1)) (edgeMap (edgeRecs b.rooted (curAfter evs (a.cur, b.cur)).2)),
-                euclidSq (edgeMap (edgeRecs a.rooted (curAfter evs (a.cur, b.cur)).1)) (edgeMap (edgeRecs b.rooted (curAfter evs (a.cur, b.cur)).2))) := by
-  obtain ⟨h1, h2, h3, h4, h5⟩ := run_fields evs (a, b)
-  simp only at h1 h2 h3 h4 h5
-  have hc1 : (run evs (a, b)).1.cur = (curAfter evs (a.cur, b.cur)).1 := congrArg Prod.fst h5
-  have hc2 : (run evs (a, b)).2.cur = (curAfter evs (a.cur, b.cur)).2 := congrArg Prod.snd h5
+        = some (wrf (edgeMap (edgeRecs c.1.1 c.1.2)) (edgeMap (edgeRecs c.2.1 c.2.2)),
+                euclidSq (edgeMap (edgeRecs c.1.1 c.1.2)) (edgeMap (edgeRecs c.2.1 c.2.2))) := by
+  intro c
+  obtain ⟨h1, h2, h5⟩ := run_fields evs (a, b)
+  simp only at h1 h2 h5
+  have hr1 : (run evs (a, b)).1.rooted = c.1.1 := congrArg (fun p => p.1.1) h5
+  have hc1 : (run evs (a, b)).1.cur = c.1.2 := congrArg (fun p => p.1.2) h5
+  have hr2 : (run evs (a, b)).2.rooted = c.2.1 := congrArg (fun p => p.2.1) h5
+  have hc2 : (run evs (a, b)).2.cur = c.2.2 := congrArg (fun p => p.2.2) h5
   have hne : ((run evs (a, b)).1.ns != (run evs (a, b)).2.ns) = false := by rw [h1, h2, hns]; simp
   obtain ⟨d1, d2, d3⟩ := default_call_ignores_stored_encoding (run evs (a, b)).1 (run evs (a, b)).2
   rw [d1, d2, d3, hne]
-  simp only [Bool.false_eq_true, if_false, TreeObj.fresh, h3, h4, hc1, hc2]
+  simp only [Bool.false_eq_true, if_false, TreeObj.fresh, hr1, hr2, hc1, hc2]
   refine ⟨?_, ?_, ?_⟩ <;> first | rfl | trivial
 
 /-- **trees over different namespaces are refused** by every function, whatever the flag and the stored encodings; trees over
@@ -1435,6 +1445,12 @@ example :
     let st := run [.fpfn false, .editA exC] (⟨0, some true, exA, none⟩, ⟨0, some true, exA, none⟩)
     (fpfnCall false st.1 st.2).1 = some (1, 1) ∧ (fpfnCall true st.1 st.2).1 = some (0, 0) := by decide
 example : (fpfnCall false ⟨0, some true, exA, none⟩ ⟨1, some true, exA, none⟩).1 = none := by decide
+/-- non-vacuity, rooting change: `exU` against its re-drawing `exV`, both encoded as ROOTED trees (RF 2: the clades differ), then
+    both flags set to unrooted: the default call answers for the current flag (RF 0), `is_bipartitions_updated=True` still from the
+    encodings made under the old flag (RF 2) -/
+example :
+    let st := run [.fpfn false, .rootA (some false) exU, .rootB (some false) exV] (⟨0, some true, exU, none⟩, ⟨0, some true, exV, none⟩)
+    (fpfnCall false st.1 st.2).1 = some (0, 0) ∧ (fpfnCall true st.1 st.2).1 = some (1, 1) := by decide
 
 end DendroModel.C04
 
